@@ -84,6 +84,16 @@ def Cache.pageChecksum (c : Cache) (w : WalCks) (pageSize pgno pageN : Nat) (new
       let v ← c.dbPage pgno
       return (v, v != 0)
 
+/-- body of the per-page loop inside `checksum`: stop at the first page beyond `pageN`; a page
+    without a checksum is an error; otherwise `chksum = flag | (chksum ^ pageChksum)` -/
+def pageStep (g : Nat → Except String (Chk × Bool)) (block pageN : Nat) (st : Chk × Bool) (i : Nat) : Except String (Chk × Bool) := do
+  if st.2 then pure st else
+  let pgno := block * blockSize + i + 1
+  if pgno > pageN then pure (st.1, true) else
+  let (v, ok) ← g pgno
+  if !ok then throw s!"missing checksum for page {pgno}"
+  pure (flag ||| (st.1 ^^^ v), false)
+
 /-- one block of the loop of `checksum` -/
 def Cache.checksumBlock (c : Cache) (w : WalCks) (pageSize pageN : Nat) (newWAL : List (Nat × Chk))
     (ignored : Bool) (block : Nat) (acc : Chk) : Except String (Cache × Chk) := do
@@ -91,23 +101,16 @@ def Cache.checksumBlock (c : Cache) (w : WalCks) (pageSize pageN : Nat) (newWAL 
     let (c', b) := c.blockChksum block
     if b != 0 then return (c', flag ||| (acc ^^^ b))
     -- unreachable in practice (a recomputed block always carries the flag); falls through like the code
-    let r ← (List.range blockSize).foldlM (fun (st : Chk × Bool) i => do
-      if st.2 then pure st else
-      let pgno := block * blockSize + i + 1
-      if pgno > pageN then pure (st.1, true) else
-      let (v, ok) ← c'.pageChecksum w pageSize pgno pageN newWAL
-      if !ok then throw s!"missing checksum for page {pgno}"
-      pure (flag ||| (st.1 ^^^ v), false)) (acc, false)
+    let r ← (List.range blockSize).foldlM (pageStep (fun p => c'.pageChecksum w pageSize p pageN newWAL) block pageN) (acc, false)
     return (c', r.1)
   else
-    let r ← (List.range blockSize).foldlM (fun (st : Chk × Bool) i => do
-      if st.2 then pure st else
-      let pgno := block * blockSize + i + 1
-      if pgno > pageN then pure (st.1, true) else
-      let (v, ok) ← c.pageChecksum w pageSize pgno pageN newWAL
-      if !ok then throw s!"missing checksum for page {pgno}"
-      pure (flag ||| (st.1 ^^^ v), false)) (acc, false)
+    let r ← (List.range blockSize).foldlM (pageStep (fun p => c.pageChecksum w pageSize p pageN newWAL) block pageN) (acc, false)
     return (c, r.1)
+
+/-- a block is summed page by page (not from the cache) when the WAL, or the transaction being
+    committed, holds one of its pages -/
+def blockIgnored (w : WalCks) (newWAL : List (Nat × Chk)) (b : Nat) : Bool :=
+  w.any (fun e => (e.1 - 1) / blockSize == b) || newWAL.any (fun e => (e.1 - 1) / blockSize == b)
 
 /-- `checksum(pageN, newWALChecksums)` (after the fix of 5001209: blocks beyond the new size are
     not marked) -/
@@ -116,14 +119,10 @@ def Cache.checksum (c : Cache) (w : WalCks) (pageSize pageN : Nat) (newWAL : Lis
   if pageN = 0 then return (c, flag)
   let blockN := (pageN - 1) / blockSize + 1
   -- pageChksumBlock asserts pgno > 0 for every key of the two maps
-  for (pgno, _) in w do
-    if pgno = 0 then throw "panic assertion failed: pgno must be greater than zero"
-  for (pgno, _) in newWAL do
-    if pgno = 0 then throw "panic assertion failed: pgno must be greater than zero"
-  let ignored (b : Nat) : Bool :=
-    w.any (fun e => (e.1 - 1) / blockSize == b) || newWAL.any (fun e => (e.1 - 1) / blockSize == b)
+  if w.any (fun e => e.1 == 0) || newWAL.any (fun e => e.1 == 0) then
+    throw "panic assertion failed: pgno must be greater than zero"
   (List.range blockN).foldlM (fun (st : Cache × Chk) block =>
-    st.1.checksumBlock w pageSize pageN newWAL (ignored block) block st.2) (c, 0)
+    st.1.checksumBlock w pageSize pageN newWAL (blockIgnored w newWAL block) block st.2) (c, 0)
 
 /-- the specification: checksum of a logical image given as per-page checksums (index pgno-1),
     XOR over all pages except the lock page, with the flag; `flag` alone for the empty image -/
